@@ -16,6 +16,9 @@ Extract/C09x.vos Extract/C09x.vok Extract/C09x.required_vos: Extract/C09x.v Mode
 Extract/C10x.vo Extract/C10x.glob Extract/C10x.v.beautified Extract/C10x.required_vo: Extract/C10x.v Model/RetainCodec.vo Model/CrashFs.vo
 Extract/C10x.vio: Extract/C10x.v Model/RetainCodec.vio Model/CrashFs.vio
 Extract/C10x.vos Extract/C10x.vok Extract/C10x.required_vos: Extract/C10x.v Model/RetainCodec.vos Model/CrashFs.vos
+Extract/C11x.vo Extract/C11x.glob Extract/C11x.v.beautified Extract/C11x.required_vo: Extract/C11x.v Model/Stbc.vo Spec/C11Judge.vo
+Extract/C11x.vio: Extract/C11x.v Model/Stbc.vio Spec/C11Judge.vio
+Extract/C11x.vos Extract/C11x.vok Extract/C11x.required_vos: Extract/C11x.v Model/Stbc.vos Spec/C11Judge.vos
 Extract/C14x.vo Extract/C14x.glob Extract/C14x.v.beautified Extract/C14x.required_vo: Extract/C14x.v Model/LspText.vo Spec/C14.vo
 Extract/C14x.vio: Extract/C14x.v Model/LspText.vio Spec/C14.vio
 Extract/C14x.vos Extract/C14x.vok Extract/C14x.required_vos: Extract/C14x.v Model/LspText.vos Spec/C14.vos
@@ -76,6 +79,9 @@ Model/StRef.vos Model/StRef.vok Model/StRef.required_vos: Model/StRef.v Model/St
 Model/StTyping.vo Model/StTyping.glob Model/StTyping.v.beautified Model/StTyping.required_vo: Model/StTyping.v Model/StCore.vo
 Model/StTyping.vio: Model/StTyping.v Model/StCore.vio
 Model/StTyping.vos Model/StTyping.vok Model/StTyping.required_vos: Model/StTyping.v Model/StCore.vos
+Model/Stbc.vo Model/Stbc.glob Model/Stbc.v.beautified Model/Stbc.required_vo: Model/Stbc.v 
+Model/Stbc.vio: Model/Stbc.v 
+Model/Stbc.vos Model/Stbc.vok Model/Stbc.required_vos: Model/Stbc.v 
 Model/WebIde.vo Model/WebIde.glob Model/WebIde.v.beautified Model/WebIde.required_vo: Model/WebIde.v 
 Model/WebIde.vio: Model/WebIde.v 
 Model/WebIde.vos Model/WebIde.vok Model/WebIde.required_vos: Model/WebIde.v 
@@ -97,6 +103,9 @@ Proofs/C09Proofs.vos Proofs/C09Proofs.vok Proofs/C09Proofs.required_vos: Proofs/
 Proofs/C10Proofs.vo Proofs/C10Proofs.glob Proofs/C10Proofs.v.beautified Proofs/C10Proofs.required_vo: Proofs/C10Proofs.v Model/RetainCodec.vo Model/CrashFs.vo
 Proofs/C10Proofs.vio: Proofs/C10Proofs.v Model/RetainCodec.vio Model/CrashFs.vio
 Proofs/C10Proofs.vos Proofs/C10Proofs.vok Proofs/C10Proofs.required_vos: Proofs/C10Proofs.v Model/RetainCodec.vos Model/CrashFs.vos
+Proofs/C11Proofs.vo Proofs/C11Proofs.glob Proofs/C11Proofs.v.beautified Proofs/C11Proofs.required_vo: Proofs/C11Proofs.v Model/Stbc.vo
+Proofs/C11Proofs.vio: Proofs/C11Proofs.v Model/Stbc.vio
+Proofs/C11Proofs.vos Proofs/C11Proofs.vok Proofs/C11Proofs.required_vos: Proofs/C11Proofs.v Model/Stbc.vos
 Proofs/C14Proofs.vo Proofs/C14Proofs.glob Proofs/C14Proofs.v.beautified Proofs/C14Proofs.required_vo: Proofs/C14Proofs.v Model/LspText.vo Spec/C14.vo
 Proofs/C14Proofs.vio: Proofs/C14Proofs.v Model/LspText.vio Spec/C14.vio
 Proofs/C14Proofs.vos Proofs/C14Proofs.vok Proofs/C14Proofs.required_vos: Proofs/C14Proofs.v Model/LspText.vos Spec/C14.vos
@@ -154,6 +163,9 @@ Properties/C09.vos Properties/C09.vok Properties/C09.required_vos: Properties/C0
 Properties/C10.vo Properties/C10.glob Properties/C10.v.beautified Properties/C10.required_vo: Properties/C10.v Model/RetainCodec.vo Model/CrashFs.vo Proofs/C10Proofs.vo
 Properties/C10.vio: Properties/C10.v Model/RetainCodec.vio Model/CrashFs.vio Proofs/C10Proofs.vio
 Properties/C10.vos Properties/C10.vok Properties/C10.required_vos: Properties/C10.v Model/RetainCodec.vos Model/CrashFs.vos Proofs/C10Proofs.vos
+Properties/C11.vo Properties/C11.glob Properties/C11.v.beautified Properties/C11.required_vo: Properties/C11.v Model/Stbc.vo Proofs/C11Proofs.vo
+Properties/C11.vio: Properties/C11.v Model/Stbc.vio Proofs/C11Proofs.vio
+Properties/C11.vos Properties/C11.vok Properties/C11.required_vos: Properties/C11.v Model/Stbc.vos Proofs/C11Proofs.vos
 Properties/C14.vo Properties/C14.glob Properties/C14.v.beautified Properties/C14.required_vo: Properties/C14.v Model/LspText.vo Spec/C14.vo Proofs/C14Proofs.vo
 Properties/C14.vio: Properties/C14.v Model/LspText.vio Spec/C14.vio Proofs/C14Proofs.vio
 Properties/C14.vos Properties/C14.vok Properties/C14.required_vos: Properties/C14.v Model/LspText.vos Spec/C14.vos Proofs/C14Proofs.vos
@@ -187,6 +199,9 @@ Spec/C07Judge.vos Spec/C07Judge.vok Spec/C07Judge.required_vos: Spec/C07Judge.v 
 Spec/C09Judge.vo Spec/C09Judge.glob Spec/C09Judge.v.beautified Spec/C09Judge.required_vo: Spec/C09Judge.v Model/Restart.vo
 Spec/C09Judge.vio: Spec/C09Judge.v Model/Restart.vio
 Spec/C09Judge.vos Spec/C09Judge.vok Spec/C09Judge.required_vos: Spec/C09Judge.v Model/Restart.vos
+Spec/C11Judge.vo Spec/C11Judge.glob Spec/C11Judge.v.beautified Spec/C11Judge.required_vo: Spec/C11Judge.v Model/Stbc.vo
+Spec/C11Judge.vio: Spec/C11Judge.v Model/Stbc.vio
+Spec/C11Judge.vos Spec/C11Judge.vok Spec/C11Judge.required_vos: Spec/C11Judge.v Model/Stbc.vos
 Spec/C14.vo Spec/C14.glob Spec/C14.v.beautified Spec/C14.required_vo: Spec/C14.v Model/LspText.vo
 Spec/C14.vio: Spec/C14.v Model/LspText.vio
 Spec/C14.vos Spec/C14.vok Spec/C14.required_vos: Spec/C14.v Model/LspText.vos
